@@ -81,6 +81,9 @@ func c11Input(c *Ctx, j int) (src string, opts *distiller.Options, paging bool, 
 	}
 }
 
+// unicodeBlockNFD rewrites the decomposed / soft-hyphenated words of the "markup+unicode" block to their NFC form.
+var unicodeBlockNFD = strings.NewReplacer("U\u0308ber\u00adra\u00adschung", "\u00dcberraschung", "cafe\u0301", "caf\u00e9", "Stra\u00dfen\u00adbahn", "Stra\u00dfenbahn", "re\u0301sume\u0301", "r\u00e9sum\u00e9")
+
 var legacySamples = []struct {
 	enc  *charmap.Charmap
 	name string
@@ -222,6 +225,25 @@ func runC11(c *Ctx, idx int) {
 			c.Violation(sig, fmt.Sprintf("%s input: run %d (%s) differs from run 1 (%s) in %s; pagination %q/%q vs %q/%q", kind, rep+1, how, firstHow, d, first.Prev, first.Next, v.Prev, v.Next),
 				map[string]any{"html": src, "options": optsDesc(opts), "fields": d, "run1": first, "runN": v, "rep": rep + 1})
 			return
+		}
+	}
+	if pass == 1 && kind == "markup+unicode" {
+		// The byte entry points normalise text (decomposed accents are composed, soft hyphens
+		// dropped). The harness has no parser of its own to compare with for non-ASCII bytes,
+		// but the same page written in the other normalisation form must give the same result:
+		// a front end that skips the normalisation on some path is seen here.
+		alt := unicodeBlockNFD.Replace(src)
+		if alt != src {
+			cr := c.applyReader(alt, opts)
+			if c.usable(cr) {
+				c.Inc("normalisation_pairs_compared")
+				v := viewOf(cr.Res)
+				if d := diffViews(first, v, true); d != "" {
+					c.Violation("normalisation-forms-differ:"+d, fmt.Sprintf("the same page with its text precomposed and without soft hyphens gives a different %s through ApplyForReader", d),
+						map[string]any{"html": src, "html_precomposed": alt, "fields": d, "run1": first, "runN": v})
+					return
+				}
+			}
 		}
 	}
 	if pass == 1 {
